@@ -6,7 +6,7 @@ from fractions import Fraction as Fr
 
 from .. import core
 
-OPBIT = {"+": 0, "-": 1, "*": 2, "/": 3, "%": 4, "<": 5}
+OPBIT = {"+": 0, "-": 1, "*": 2, "/": 3, "%": 4, "<": 5, "=": 6, "q": 7}
 
 
 def opmask(ops):
@@ -63,13 +63,21 @@ def judge(res, job, wrap=False, classify=None):
                 ws.append({"in": "%s %s %s" % (ah, op, bh), "exp": exp, "obs": kind + " " + rh})
             t["viol"][cls] = (n + 1, ws)
         t["kinds"][kind] = t["kinds"].get(kind, 0) + 1
-        if op == "<":
+        if op in "<=":
             t["judged"] += 1
-            want = Fr(a) * Fr(2) ** e1 < Fr(b) * Fr(2) ** e2
+            va, vb = Fr(a) * Fr(2) ** e1, Fr(b) * Fr(2) ** e2
+            want = va < vb if op == "<" else va == vb
+            if k.get("fixed") and e1 != e2:
+                # fixed-width representations (wide_integer): like built-in reps, the exponent alignment of the coarser operand has to fit
+                al = (a << (e1 - e2)) if e1 > e2 else (b << (e2 - e1))
+                if abs(al) >> max(k["digits1"], k["digits2"]):
+                    t["judged"] -= 1
+                    t["ood"] += 1
+                    continue
             if kind != "VALUE":
-                viol("event:" + kind + ":<", "a value")
+                viol("event:" + kind + ":" + op, "a value")
             elif rh != ("1" if want else "0"):
-                viol("wrong:<", "1" if want else "0")
+                viol("wrong:" + ("<" if op == "<" else "=="), "1" if want else "0")
             elif a < 0 or b < 0:
                 t["nt"] += 1
             continue
@@ -82,9 +90,15 @@ def judge(res, job, wrap=False, classify=None):
         elif op == "*":
             x = Fr(a * b) * Fr(2) ** (e1 + e2 - rexp)
             exact = x.numerator if x.denominator == 1 else None
-        elif op == "/" and e1 == e2 == rexp == 0:
+        elif op == "/" and rexp == e1 - e2:
+            # integer types (all exponents 0) and scaled_integer alike: the quotient of the representations, at exponent e1 - e2
             exact = ndiv(a, b) if k.get("rm") == 1 else tdiv(a, b)
-        elif op == "%" and e1 == e2 == rexp == 0:
+        elif op == "q":
+            # quotient(): the true quotient truncated toward zero at the result type's own resolution
+            x = Fr(a) * Fr(2) ** e1 / (Fr(b) * Fr(2) ** e2) / Fr(2) ** rexp
+            exact = x.numerator // x.denominator if x >= 0 else -((-x.numerator) // x.denominator)
+        elif op == "%" and rexp == e1:
+            # a % b has the dividend's exponent and is what makes (a/b)*b + a%b == a hold exactly
             exact = a - tdiv(a, b) * b
         if exact is None:
             t["ood"] += 1
